@@ -193,6 +193,19 @@ func bindPlaceholders(g *Gen, docs map[string]*Node) {
 			}
 		}
 	}
+	// a definition whose name is a string prefix of the name of the definition that refers to it (node / nodeList)
+	if set["N_1"] && set["N_2"] && g.r.Intn(2) == 0 {
+		_, b1 := g.Names.ToConcrete["N_1"]
+		_, b2 := g.Names.ToConcrete["N_2"]
+		if !b1 && !b2 {
+			base := plainWords[g.r.Intn(len(plainWords))]
+			if !g.usedConcrete[base] && !g.usedConcrete[base+"List"] && !reservedWords[base] {
+				g.usedConcrete[base], g.usedConcrete[base+"List"] = true, true
+				g.Names.Bind("N_2", base)
+				g.Names.Bind("N_1", base+"List")
+			}
+		}
+	}
 	// sibling property names where one is a string prefix of the other (addr / addrKind)
 	if set["N_3"] && set["N_4"] && g.r.Intn(2) == 0 {
 		if _, b3 := g.Names.ToConcrete["N_3"]; !b3 {
